@@ -28,8 +28,11 @@ EXTENDS Integers, Sequences, TLC, Json, GrolPrims
 
 CONSTANTS NumRegisters, MaxOps, Bursts, WriterRestored, LoopReleases, EmitOn
 
-GoodKinds == {"print", "loop", "call", "define", "incr"}
-FailKinds == {"err-nested-calls", "err-in-top-loop", "err-in-nested-loops", "panic-in-function", "depth-overflow", "deadline", "memory-guard"}
+\* "loopvar" reads a counted-loop variable after its loop (hidden while registers are available); "deep" recurses to just
+\* below the depth limit (fails if a failed input left depth levels behind)
+GoodKinds == {"print", "loop", "call", "define", "incr", "loopvar", "deep"}
+FailKinds == {"err-nested-calls", "err-in-top-loop", "err-in-nested-loops", "panic-in-function", "depth-overflow", "deadline", "memory-guard",
+              "panic-in-top-loop", "memory-guard-top-level", "depth-overflow-expression"}
 
 VARIABLES writer, scope, depth, regs, clean, hist
 vars == <<writer, scope, depth, regs, clean, hist>>
@@ -50,8 +53,8 @@ RECURSIVE After(_, _, _)
 \* state after n failing inputs of kind k: <<writer, regs>> (scope and depth are reset by Reset / normal unwinding)
 After(k, n, st) ==
   IF n = 0 THEN st
-  ELSE LET w == IF k \in {"panic-in-function", "depth-overflow", "memory-guard"} /\ ~WriterRestored THEN "dead" ELSE st[1]
-           r == IF k \in {"err-in-top-loop", "err-in-nested-loops"} /\ ~LoopReleases
+  ELSE LET w == IF k \in {"panic-in-function", "depth-overflow", "memory-guard", "panic-in-top-loop"} /\ ~WriterRestored THEN "dead" ELSE st[1]
+           r == IF k \in {"err-in-top-loop", "err-in-nested-loops", "panic-in-top-loop"} /\ ~LoopReleases
                 THEN (IF st[2] + 1 > NumRegisters THEN NumRegisters ELSE st[2] + 1) ELSE st[2]
        IN After(k, n - 1, <<w, r>>)
 
